@@ -12,6 +12,7 @@ from __future__ import annotations
 import copy
 import io
 import json
+import os
 import tempfile
 
 from rt import gen, impl
@@ -88,6 +89,31 @@ def run_scale(ctx):
                     ctx.violation("entry-points-disagree:number-spelling-twins:%s" % ename, {"twins": True, "n": n, "text": text}, {"text": text, "right_hand_values": n, "entry_point": ename, "got": o.desc() if not o.ok else repr(o.value)[:300], "findall": repr(want_)[:300]})
                     return
         ctx.cell("scale", "number-spelling twins, right-hand values=%d" % n)
+    # a readable file that the caller has already read something from (a header line): the document is what is LEFT on the
+    # stream, through every entry point that takes a file
+    import tempfile as _tf
+
+    for header in (b"# header\n", b"[1, 2]\n", b"x" * 5000 + b"\n"):
+        for dval in ({"a": [1, {"b": 2}], "c": "s"}, [1, [2, 3], {"a": 4}]):
+            for text in ("$..*", "$.a | $[1]", "$..[?@.b == 2] & $..*"):
+                want_ = impl.call(lambda: [canon(v) for v in jsonpath.findall(text, dval)])
+                for ename, fn in (("findall", lambda f: [canon(v) for v in jsonpath.findall(text, f)]), ("finditer", lambda f: [canon(m.obj) for m in jsonpath.finditer(text, f)]), ("compiled.findall", lambda f: [canon(v) for v in jsonpath.compile(text).findall(f)]),
+                                  ("query", lambda f: [canon(v) for v in jsonpath.query(text, f).values()]), ("match", lambda f: [canon(m.obj) for m in [jsonpath.match(text, f)] if m is not None])):
+                    for mode in ("rb", "r"):
+                        with _tf.NamedTemporaryFile("wb", suffix=".json", delete=False) as tf_:
+                            tf_.write(header + json.dumps(dval).encode("utf-8"))
+                        try:
+                            with open(tf_.name, mode) as f_:
+                                f_.readline()
+                                o = impl.call(fn, f_)
+                        finally:
+                            os.unlink(tf_.name)
+                        ctx.evaluation()
+                        ctx.count("file_documents_positioned_past_a_header")
+                        w_ = want_.value[:1] if ename == "match" else want_.value
+                        if not o.ok or o.value != w_:
+                            ctx.violation("file-document-read-from-somewhere-else-than-its-position:%s" % ename, {"twins": True}, {"text": text, "entry_point": ename, "mode": mode, "header": repr(header[:20]), "got": o.desc() if not o.ok else repr(o.value)[:300], "expected": repr(w_)[:300]})
+                            return
     # numbers of the other numeric types a caller's loader may produce (json.loads(..., parse_float=Decimal), Fraction):
     # equal to builtin numbers under ==, hashable, but neither int nor float. No model here - every entry point must
     # decide what the eager one decides.
